@@ -99,6 +99,18 @@ func Monitor(spec *Spec, tr *Trace) []Finding {
 		entered := func(t int) bool { return hist[t] != nil && len(hist[t].enters) > 0 }
 
 		// ---- definition errors / cycles (C16) -------------------------------------------------
+		if spec.PreFail && !(m.DefErr || m.Cycle) {
+			// the graph has recorded a failure in an earlier Run: it refuses to run again and starts nothing
+			if tr.RunErr[gi] == "" {
+				add("C14", "an earlier Run of this graph recorded a task failure, tasks were added, and the next Run returned nil")
+			}
+			for t := range hist {
+				if entered(t) {
+					add("C13", "task t%d was started by a Run of a graph whose earlier Run had failed (its recorded errors were forgotten)", t)
+				}
+			}
+			continue
+		}
 		if m.DefErr || m.Cycle {
 			if tr.RunErr[gi] == "" {
 				add("C16", "graph with %s was accepted: Run returned nil", map[bool]string{true: "a dependency cycle", false: "a definition error"}[m.Cycle])
@@ -476,9 +488,9 @@ func Monitor(spec *Spec, tr *Trace) []Finding {
 		}
 	}
 	// buffered output: every attempt's chunks complete, contiguous, once
-	if spec.Buffer && tr.Output != "" || (spec.Buffer && tr.OutputWrites > 0) {
+	if (spec.Buffer && tr.Output != "" || (spec.Buffer && tr.OutputWrites > 0)) && !spec.WriterFails {
 		ms := chunkRe.FindAllStringSubmatch(tr.Output, -1)
-		rest := chunkRe.ReplaceAllString(tr.Output, "")
+		rest := strings.ReplaceAll(chunkRe.ReplaceAllString(tr.Output, ""), ".", "")
 		if rest != "" {
 			add("C15", "buffered output contains torn bytes: %q", rest)
 		}
